@@ -1,5 +1,5 @@
 //! The crate's real proxy() between two real sockets over scripted connections.
-//! case: ID proxy FRONT BACK [cap] / fattach C PT [id=HEX] / battach C PT [id=HEX] / ffeed C HEX / bfeed C HEX
+//! case: ID proxy FRONT BACK [cap] [prepoll] / fattach C PT [id=HEX] / battach C PT [id=HEX] / ffeed C HEX / bfeed C HEX
 //!                                  / feof C / beof C / settle / fwire C / bwire C / cwire / status
 use crate::pipes::*;
 use crate::sock::{with_rt, AnySock};
@@ -63,14 +63,25 @@ pub fn run(args: &[&str]) -> String {
     let head: Vec<&str> = parts.next().unwrap().split_whitespace().collect();
     let ft = head[0].to_string();
     let bt = head[1].to_string();
-    let with_cap = head.len() > 2 && head[2] == "cap";
+    let with_cap = head.iter().any(|h| *h == "cap");
+    let prepoll = head.iter().any(|h| *h == "prepoll");
     let ops: Vec<Vec<String>> = parts.map(|p| p.split_whitespace().map(|s| s.to_string()).collect()).collect();
     let out = with_rt(|rt| {
         let local = tokio::task::LocalSet::new();
         rt.block_on(local.run_until(async move {
             let mut out: Vec<String> = Vec::new();
-            let fs = AnySock::new(&ft, None);
-            let bs = AnySock::new(&bt, None);
+            let mut fs = AnySock::new(&ft, None);
+            let mut bs = AnySock::new(&bt, None);
+            if prepoll {
+                // a recv on each socket is polled once by "somebody else" and abandoned before the sockets go to proxy()
+                for s in [&mut fs, &mut bs] {
+                    if let Some(mut f) = s.recv() {
+                        let (_cw, w) = count_waker();
+                        let mut cx = std::task::Context::from_waker(&w);
+                        let _ = f.as_mut().poll(&mut cx);
+                    }
+                }
+            }
             let mut front = Side { backend: fs.backend(), conns: HashMap::new() };
             let mut back = Side { backend: bs.backend(), conns: HashMap::new() };
             let mut capside: Option<Side> = None;
